@@ -175,6 +175,7 @@ theorem norm_zero : norm 0 = 0 := by simp [norm_eq]
 theorem norm_v : norm v = xi := by simp [norm_eq, v]
 theorem norm_ofFq2 (c : Fq2) : norm (ofFq2 c) = c ^ 3 := by simp [norm_eq]
 
+attribute [local irreducible] Fq2.inverse in
 /-- the pieces of the model's `inverse`, named -/
 theorem inverse_unfold (a : Fq6) : inverse a =
     match Fq2.inverse (norm a) with
@@ -270,25 +271,40 @@ theorem inverse_some_mul {a b : Fq6} (h : inverse a = some b) : a * b = 1 := by
       = ofFq2 (norm a)⁻¹ * adj a := by rw [ofFq2_mul]
   rw [this, mul_left_comm, mul_adj, ← map_mul, inv_mul_cancel₀ hn, map_one]
 
--- keep the unifier from evaluating `inverse` on open terms while checking the default `zpow` laws
-attribute [local irreducible] Fq6.inverse in
+instance : Inv Fq6 := ⟨fun a => (inverse a).getD 0⟩
+theorem inv_def (a : Fq6) : a⁻¹ = (inverse a).getD 0 := rfl
+
+/-- integer powers (`zpowRec` spelled out so that its laws hold syntactically: the default
+    `rfl` proofs make the unifier evaluate `inverse` on open terms) -/
+def zpow (z : ℤ) (a : Fq6) : Fq6 :=
+  match z with
+  | Int.ofNat n => a ^ n
+  | Int.negSucc n => (a ^ (n + 1))⁻¹
+
+theorem zpow_ofNat (n : ℕ) (a : Fq6) : zpow (n : ℤ) a = a ^ n := rfl
+theorem zpow_negSucc (n : ℕ) (a : Fq6) : zpow (Int.negSucc n) a = (a ^ (n + 1))⁻¹ := rfl
+theorem zpow_neg' (n : ℕ) (a : Fq6) : zpow (Int.negSucc n) a = (zpow (n.succ : ℕ) a)⁻¹ := by
+  rw [zpow_negSucc, zpow_ofNat]
+
 instance instField : Field Fq6 where
   __ := instCommRing
-  inv a := (inverse a).getD 0
+  inv := Inv.inv
+  zpow := zpow
+  zpow_zero' a := pow_zero a
+  zpow_succ' n a := pow_succ a n
+  zpow_neg' := zpow_neg'
   exists_pair_ne := ⟨0, 1, fun h => by
     have : (0 : Fq2) = 1 := congrArg Fq6.c0 h
     exact zero_ne_one this⟩
   mul_inv_cancel a h := by
-    show a * (inverse a).getD 0 = 1
+    rw [inv_def]
     have := inverse_of_ne a h
     exact inverse_some_mul (by rw [this]; rfl)
-  inv_zero := by show (inverse 0).getD 0 = 0; rw [inverse_zero]; rfl
+  inv_zero := by rw [inv_def, inverse_zero]; rfl
   nnqsmul := _
   nnqsmul_def := fun _ _ => rfl
   qsmul := _
   qsmul_def := fun _ _ => rfl
-
-theorem inv_def (a : Fq6) : a⁻¹ = (inverse a).getD 0 := rfl
 
 theorem inverse_eq_some (a : Fq6) (h : a ≠ 0) : inverse a = some a⁻¹ := by
   rw [inv_def, inverse_of_ne a h]; rfl
@@ -325,6 +341,7 @@ theorem norm_mul (a b : Fq12) : norm (a * b) = norm a * norm b := by
 theorem norm_zero : norm 0 = 0 := by simp [norm]
 theorem norm_one : norm 1 = 1 := by simp [norm]
 
+attribute [local irreducible] Fq6.inverse in
 theorem inverse_unfold (a : Fq12) : inverse a =
     match Fq6.inverse (norm a) with
     | none => none
@@ -386,24 +403,40 @@ theorem inverse_some_mul {a b : Fq12} (h : inverse a = some b) : a * b = 1 := by
     · rw [mul_c1]; simp [conjugate_c0, conjugate_c1]
   rw [this, mul_left_comm, mul_conjugate', ← map_mul, inv_mul_cancel₀ hn, map_one]
 
-attribute [local irreducible] Fq12.inverse in
+instance : Inv Fq12 := ⟨fun a => (inverse a).getD 0⟩
+theorem inv_def (a : Fq12) : a⁻¹ = (inverse a).getD 0 := rfl
+
+/-- integer powers (`zpowRec` spelled out so that its laws hold syntactically: the default
+    `rfl` proofs make the unifier evaluate `inverse` on open terms) -/
+def zpow (z : ℤ) (a : Fq12) : Fq12 :=
+  match z with
+  | Int.ofNat n => a ^ n
+  | Int.negSucc n => (a ^ (n + 1))⁻¹
+
+theorem zpow_ofNat (n : ℕ) (a : Fq12) : zpow (n : ℤ) a = a ^ n := rfl
+theorem zpow_negSucc (n : ℕ) (a : Fq12) : zpow (Int.negSucc n) a = (a ^ (n + 1))⁻¹ := rfl
+theorem zpow_neg' (n : ℕ) (a : Fq12) : zpow (Int.negSucc n) a = (zpow (n.succ : ℕ) a)⁻¹ := by
+  rw [zpow_negSucc, zpow_ofNat]
+
 instance instField : Field Fq12 where
   __ := instCommRing
-  inv a := (inverse a).getD 0
+  inv := Inv.inv
+  zpow := zpow
+  zpow_zero' a := pow_zero a
+  zpow_succ' n a := pow_succ a n
+  zpow_neg' := zpow_neg'
   exists_pair_ne := ⟨0, 1, fun h => by
     have : (0 : Fq6) = 1 := congrArg Fq12.c0 h
     exact zero_ne_one this⟩
   mul_inv_cancel a h := by
-    show a * (inverse a).getD 0 = 1
+    rw [inv_def]
     have := inverse_of_ne a h
     exact inverse_some_mul (by rw [this]; rfl)
-  inv_zero := by show (inverse 0).getD 0 = 0; rw [inverse_zero]; rfl
+  inv_zero := by rw [inv_def, inverse_zero]; rfl
   nnqsmul := _
   nnqsmul_def := fun _ _ => rfl
   qsmul := _
   qsmul_def := fun _ _ => rfl
-
-theorem inv_def (a : Fq12) : a⁻¹ = (inverse a).getD 0 := rfl
 
 theorem inverse_eq_some (a : Fq12) (h : a ≠ 0) : inverse a = some a⁻¹ := by
   rw [inv_def, inverse_of_ne a h]; rfl
